@@ -8,7 +8,7 @@
        refuses a non-zero lower bound.
    Elsewhere the two agree (UperProofs).  [uper_dec] is the reference decoder. *)
 From Coq Require Import ZArith List Bool.
-From A1 Require Import Base.Bytes Leaf.IntegerConv Rt.Types Rt.Der.
+From A1 Require Import Base.Bytes Leaf.IntegerConv Rt.Types Rt.Comb Rt.Der.
 Import ListNotations.
 Local Open Scope Z_scope.
 
@@ -199,59 +199,43 @@ Fixpoint insert_by_key (x : list bool) (l : list (list bool)) : list (list bool)
 Definition sort_bit_encodings (l : list (list bool)) : list (list bool) :=
   fold_right insert_by_key [] l.
 
-Fixpoint uper (std : bool) (t : ty) (v : val) {struct t} : option (list bool) :=
-  match t, v with
-  | TBool _, VBool b => Some [b]
-  | TNull _, VNull => Some []
-  | TInt _ c, VInt z => uper_int std c z
-  | TOct _ s, VOct bs => sized s (map byte_bits bs)
-  | TSeq _ ms, VSeq vs =>
-      (* preamble: one presence bit per OPTIONAL member, then the members *)
-      let preamble :=
-        (fix pre (ms : list ty) (vs : list val) : list bool :=
-           match ms, vs with
-           | m :: ms', v :: vs' =>
-               (if is_opt m then [match v with VNone => false | _ => true end] else []) ++ pre ms' vs'
-           | _, _ => []
-           end) ms vs in
-      match (fix go (ms : list ty) (vs : list val) : option (list bool) :=
-               match ms, vs with
-               | [], [] => Some []
-               | m :: ms', v :: vs' =>
-                   match uper std m v, go ms' vs' with
-                   | Some a, Some b => Some (a ++ b)
-                   | _, _ => None
-                   end
-               | _, _ => None
-               end) ms vs with
-      | Some body => Some (preamble ++ body)
-      | None => None
-      end
-  | TSeqOf _ s e, VList vs =>
-      match option_all (map (uper std e) vs) with
-      | Some es => sized s es
-      | None => None
-      end
-  | TSetOf _ s e, VList vs =>
-      match option_all (map (uper std e) vs) with
-      | Some es => sized s (sort_bit_encodings es)
-      | None => None
-      end
-  | TChoice alts, VChoice i v =>
-      match (fix pick (alts' : list ty) (j : nat) : option (list bool) :=
-               match alts', j with
-               | a :: _, O => uper std a v
-               | _ :: r, S j' => pick r j'
-               | [], _ => None
-               end) alts i with
-      | Some body => Some (nbits (range_bits (zlen alts)) (choice_index std alts i) ++ body)
-      | None => None
-      end
-  | TTag _ t', _ => uper std t' v
-  | TOpt _, VNone => Some []
-  | TOpt t', VSome v' => uper std t' v'
-  | _, _ => None
-  end.
+Section Std.
+  (* std = true: X.691; std = false: what the C does where it is known to deviate *)
+  Variable std : bool.
+
+  Fixpoint uper (t : ty) (v : val) {struct t} : option (list bool) :=
+    match t, v with
+    | TBool _, VBool b => Some [b]
+    | TNull _, VNull => Some []
+    | TInt _ c, VInt z => uper_int std c z
+    | TOct _ s, VOct bs => sized s (map byte_bits bs)
+    | TSeq _ ms, VSeq vs =>
+        (* preamble: one presence bit per OPTIONAL member, then the members *)
+        match enc_members uper ms vs with
+        | Some body => Some (presence_bits ms vs ++ body)
+        | None => None
+        end
+    | TSeqOf _ s e, VList vs =>
+        match option_all (map (uper e) vs) with
+        | Some es => sized s es
+        | None => None
+        end
+    | TSetOf _ s e, VList vs =>
+        match option_all (map (uper e) vs) with
+        | Some es => sized s (sort_bit_encodings es)
+        | None => None
+        end
+    | TChoice alts, VChoice i v' =>
+        match enc_alt uper v' alts i with
+        | Some body => Some (nbits (range_bits (zlen alts)) (choice_index std alts i) ++ body)
+        | None => None
+        end
+    | TTag _ t', _ => uper t' v
+    | TOpt _, VNone => Some []
+    | TOpt t', VSome v' => uper t' v'
+    | _, _ => None
+    end.
+End Std.
 
 (* a complete encoding: at least one octet (X.691 11.1.3: an empty bit string
    becomes a single zero octet) *)
@@ -281,17 +265,7 @@ Section Counted.
   Context {A : Type}.
   Variable item : list bool -> option (A * list bool).
 
-  Fixpoint get_items (n : nat) (bs : list bool) : option (list A * list bool) :=
-    match n with
-    | O => Some ([], bs)
-    | S k => match item bs with
-             | Some (a, r) => match get_items k r with
-                              | Some (x, r') => Some (a :: x, r')
-                              | None => None
-                              end
-             | None => None
-             end
-    end.
+  Definition get_items : nat -> list bool -> option (list A * list bool) := dec_items item.
 
   Fixpoint get_counted (fuel : nat) (bs : list bool) : option (list A * list bool) :=
     match fuel with
@@ -371,93 +345,51 @@ Definition uper_dec_int (c : icon) (bs : list bool) : option (Z * list bool) :=
       else root bs
   end.
 
-Fixpoint uper_dec (std : bool) (t : ty) (bs : list bool) {struct t} : option (val * list bool) :=
-  match t with
-  | TBool _ => match bs with b :: r => Some (VBool b, r) | [] => None end
-  | TNull _ => Some (VNull, bs)
-  | TInt _ c =>
-      match uper_dec_int c bs with
-      | Some (z, r) => if fits_long z then Some (VInt z, r) else None
-      | None => None
-      end
-  | TOct _ s =>
-      match get_sized get_octet s bs with
-      | Some (os, r) => Some (VOct os, r)
-      | None => None
-      end
-  | TSeq _ ms =>
-      let nopt := length (filter is_opt ms) in
-      match take_bits nopt bs with
-      | Some (pres, r0) =>
-          match (fix go (ms : list ty) (pres : list bool) (bs : list bool)
-                   : option (list val * list bool) :=
-                   match ms with
-                   | [] => Some ([], bs)
-                   | m :: ms' =>
-                       match m with
-                       | TOpt t' =>
-                           match pres with
-                           | true :: pres' =>
-                               match uper_dec std t' bs with
-                               | Some (v, r) =>
-                                   match go ms' pres' r with
-                                   | Some (vs, r') => Some (VSome v :: vs, r')
-                                   | None => None
-                                   end
-                               | None => None
-                               end
-                           | false :: pres' =>
-                               match go ms' pres' bs with
-                               | Some (vs, r') => Some (VNone :: vs, r')
-                               | None => None
-                               end
-                           | [] => None
-                           end
-                       | _ =>
-                           match uper_dec std m bs with
-                           | Some (v, r) =>
-                               match go ms' pres r with
-                               | Some (vs, r') => Some (v :: vs, r')
-                               | None => None
-                               end
-                           | None => None
-                           end
-                       end
-                   end) ms pres r0 with
-          | Some (vs, r) => Some (VSeq vs, r)
-          | None => None
-          end
-      | None => None
-      end
-  | TSeqOf _ s e | TSetOf _ s e =>
-      match get_sized (uper_dec std e) s bs with
-      | Some (vs, r) => Some (VList vs, r)
-      | None => None
-      end
-  | TChoice alts =>
-      match get_bits (range_bits (zlen alts)) bs with
-      | Some (idx, r) =>
-          (fix pick (alts' : list ty) (i : nat) : option (val * list bool) :=
-             match alts' with
-             | [] => None
-             | a :: rest =>
-                 if choice_index std alts i =? idx then
-                   match uper_dec std a r with
-                   | Some (v, r') => Some (VChoice i v, r')
-                   | None => None
-                   end
-                 else pick rest (S i)
-             end) alts O
-      | None => None
-      end
-  | TTag _ t' => uper_dec std t' bs
-  | TOpt t' =>
-      (* only reached through TSeq, which handles presence itself *)
-      match uper_dec std t' bs with
-      | Some (v, r) => Some (VSome v, r)
-      | None => None
-      end
-  end.
+Section StdDec.
+  Variable std : bool.
+
+  Fixpoint uper_dec (t : ty) (bs : list bool) {struct t} : option (val * list bool) :=
+    match t with
+    | TBool _ => match bs with b :: r => Some (VBool b, r) | [] => None end
+    | TNull _ => Some (VNull, bs)
+    | TInt _ c =>
+        match uper_dec_int c bs with
+        | Some (z, r) => if fits_long z then Some (VInt z, r) else None
+        | None => None
+        end
+    | TOct _ s =>
+        match get_sized get_octet s bs with
+        | Some (os, r) => Some (VOct os, r)
+        | None => None
+        end
+    | TSeq _ ms =>
+        match take_bits (length (filter is_opt ms)) bs with
+        | Some (pres, r0) =>
+            match dec_members_pres uper_dec ms pres r0 with
+            | Some (vs, r) => Some (VSeq vs, r)
+            | None => None
+            end
+        | None => None
+        end
+    | TSeqOf _ s e | TSetOf _ s e =>
+        match get_sized (uper_dec e) s bs with
+        | Some (vs, r) => Some (VList vs, r)
+        | None => None
+        end
+    | TChoice alts =>
+        match get_bits (range_bits (zlen alts)) bs with
+        | Some (idx, r) => dec_alt uper_dec (fun i _ => choice_index std alts i =? idx) r alts O
+        | None => None
+        end
+    | TTag _ t' => uper_dec t' bs
+    | TOpt t' =>
+        (* only reached through TSeq, which handles presence itself *)
+        match uper_dec t' bs with
+        | Some (v, r) => Some (VSome v, r)
+        | None => None
+        end
+    end.
+End StdDec.
 
 (* asn_decode on a complete buffer: value and octets consumed (bits rounded up,
    at least one octet) *)
